@@ -346,7 +346,7 @@ int main(int argc, char** argv) {
     tf.push_back(fam::make_LW());
     tf.push_back(fam::make_LX(lxbase, 3));
     tf.push_back(fam::make_LN());
-    tf.push_back(fam::make_LH(quick ? 18 : 20));
+    tf.push_back(fam::make_LH(quick ? 17 : 19));  // under ASan x 3 allocators x fill bytes
   } else {
     fprintf(stderr, "jsonenum: --prop C01|C02|C03 required\n");
     return 2;
